@@ -32,8 +32,9 @@ def H(pid, **kw):
 prop("C07", title="Numeric literals mean exactly what is written",
      level_text="Bounded model checking of the real PrettyDecimal::from_str: for EVERY ASCII byte string of length <= 6 "
                 "(quick; <= 10 thorough) the solver decides accepted-set and value against a reference recogniser written "
-                "from the statement, plus the 39..41-digit overflow step. Strings longer than the bound, the winnow token "
-                "extent (primitive::pretty_decimal) and the Display round trip of values the solver cannot print are outside.",
+                "from the statement, plus the 39..41-digit overflow step; and the printing side for grouped values: every m / 10^scale "
+                "(16-bit mantissa, 0..=4 decimal places) with the comma-grouped tag prints the reference text. Strings longer than the bound, "
+                "the winnow token extent (primitive::pretty_decimal), Decimal's own Display (plain format) and larger mantissas are outside.",
      level_note="Trusted: Kani/CBMC; alloc::fmt::format stubbed to an empty string (error messages not inspected); input "
                 "restricted to ASCII bytes viewed through from_utf8_unchecked (UTF-8 validation is not the subject); "
                 "real rust_decimal try_from_i128_with_scale is executed, not modelled.")
@@ -48,6 +49,12 @@ H("C07", file="core/pretty_decimal.rs", name="c07_overflow_39_41", tier="quick",
   bound="38 concrete '9' followed by exactly 1, 2 and 3 symbolic characters from [0-9.] (39..41 digit literals); unwind 50",
   models=[FMT],
   oracle="a literal beyond the 96-bit range is rejected: no Ok, no arithmetic overflow (dev) and no wrap (release)")
+H("C07", file="core/pretty_decimal.rs", name="c07_display_grouped", tier="quick", timeout=1500, expect_s=210, env={"VERIF_ALLOC_BLOCK": 64},
+  functions=["<PrettyDecimal as Display>::fmt (Comma3Dot arm)", "i128 Display (real)", "core::fmt::write (real)"],
+  bound="every value m / 10^scale with a 16-bit mantissa, either sign, 0..=4 decimal places, carrying the grouped format tag; unwind 8",
+  models=[FMT, "global allocator -> fixed 64-byte blocks (verif_alloc): the digit string's length is symbolic"],
+  oracle="prints without panicking, exactly the reference text: digits padded to one integral digit, groups of three, '.' + scale digits "
+         "(so `0,000.01` prints 0.01 instead of overflowing)")
 H("C07", file="core/pretty_decimal.rs", name="c07_literal_10", tier="thorough", timeout=2700,
   functions=["PrettyDecimal::from_str", "try_find_char"],
   bound="every ASCII byte string of length 0..=10; unwind 12",
@@ -78,6 +85,11 @@ H("C06", file="core/pretty_decimal.rs", name="c07_literal_6", timeout=900,
   functions=["PrettyDecimal::from_str", "try_find_char"],
   bound="every ASCII byte string of length 0..=6; unwind 8", models=[FMT],
   oracle="no panic, no overflow, no out-of-range slice on any path (Kani's built-in checks) in addition to C07's oracle")
+H("C06", file="core/pretty_decimal.rs", name="c07_display_grouped", timeout=1500, expect_s=210, env={"VERIF_ALLOC_BLOCK": 64},
+  functions=["<PrettyDecimal as Display>::fmt (Comma3Dot arm)"],
+  bound="16-bit mantissa, either sign, 0..=4 decimal places, grouped format tag; unwind 8",
+  models=[FMT, "global allocator -> fixed 64-byte blocks (verif_alloc)"],
+  oracle="formatting never panics (index arithmetic mantissa.len() - scale, split_at)")
 H("C06", file="core/pretty_decimal.rs", name="c07_overflow_39_41", timeout=900,
   functions=["PrettyDecimal::from_str"],
   bound="38 nines + 1..3 symbolic characters from [0-9.]; unwind 50", models=[FMT],
